@@ -31,7 +31,13 @@ RULE = ("(1) the parameter splitter on every text of length <= 5 over {a , space
         "spelling of the key x two ways of writing that in a path - judged by the model and model-free (has_child = exactly the "
         "hashes having / lacking the key); max() / min() plain and inverted over what a flat or nested collector ((X)), "
         "((X)+(Y)), (((X)+(Y))+(Z)) ... gathered from lists / hashes of ints and floats with ties, both notations - judged on the "
-        "values (numeric greatest / least, inverted the others in any order); "
+        "values (numeric greatest / least, inverted the others in any order); the SEQUENCE flat collector -> [<!>max()|min()] -> [name()] / "
+        "[parent(n)] / [parent(n)][name()] over collections of ints / floats with ties at depth 1, 2 and 3 (members gathered one by one "
+        "`k.*`, for name() also the list itself), both notations, every n up to the depth of the shallowest gathered member: name() = the "
+        "key / index each selected member is held under in ITS collection, parent(n) = its n-th ancestor in the document (oracle: the "
+        "members' addresses read off the document); THE DEFAULT RETRIEVAL MODE: every case whose selection is empty by definition and a "
+        "third of the others is asked again through get_nodes(path) with mustexist=False (every node in front of the keyword exists and "
+        "is not null) - the same members, and the empty selection is an empty result, not an error; "
         "collections holding containers (crash classes).  Observable: result node addresses in order (identity of the "
         "yielded container, else parent identity + parentref), for name() the yielded key/index, or the error class.  "
         "distinct_nontrivial = distinct cases with a non-empty result that is a proper subset of the members or a "
